@@ -118,7 +118,20 @@ def run_translator(log, exclude=()):
         if rc != 0:
             out['error'] = 'rs2lean does not build: ' + o[-400:]
             return out
-    rc, o = sh([RS2LEAN, os.path.join(REPO, 'src'), gen] + ([','.join(sorted(exclude))] if exclude else []), timeout=300)
+    # names of the functions the pinned table knows, per file: a function that is NOT among them is an added helper, which
+    # the translator inlines into its callers (rs2lean/src/inline.rs)
+    known_path = os.path.join(WORKROOT, 'known_fns.tsv')
+    try:
+        os.makedirs(WORKROOT, exist_ok=True)
+        golden = json.load(open(os.path.join(VERIF, 'fingerprints.json')))
+        with open(known_path, 'w') as f:
+            for key in sorted(golden):
+                rel, _, rest = key.partition('::')
+                f.write(rel + '\t' + re.sub(r'#\d+$', '', rest.rpartition('::')[2]) + '\n')
+    except Exception:
+        known_path = ''
+    rc, o = sh([RS2LEAN, os.path.join(REPO, 'src'), gen] + ([','.join(sorted(exclude))] if exclude else []), timeout=300,
+               env=dict(os.environ, RS2LEAN_KNOWN=known_path))
     if rc != 0:
         out['error'] = 'rs2lean failed: ' + o[-400:]
         return out
@@ -787,8 +800,21 @@ def decide(prop, tier, seed, replay, lean, bins, hooks, herr, driver, fp, workdi
     all_names = set(lean.get('translator', {}).get('theorems', [])) | set(lean.get('translator', {}).get('limb_theorems', []))
     ok_names = set(lean.get('equiv_ok_names', []))
     still_changed, retranslated = [], []
+    treport = lean.get('translator', {}).get('report', {})
+    src_toks = None
     for entry in fp['changed']:
         key = entry.rsplit(' (', 1)[0]
+        if entry.endswith('(added)'):
+            # an added private helper that the translator inlined into every one of its call sites: it has no behaviour
+            # of its own left — its callers are compared with the model with the helper's body in place
+            rel, _, rest = key.partition('::')
+            fn = re.sub(r'#\d+$', '', rest.rpartition('::')[2])
+            nsites = treport.get(f'inlined:{rel}::{fn}')
+            if nsites is not None and str(nsites).isdigit() and int(nsites) > 0:
+                src_toks = src_toks if src_toks is not None else fingerprint.all_tokens(REPO)
+                if src_toks.count(fn) == int(nsites) + 1:
+                    retranslated.append(entry + f' [helper inlined into its {nsites} call site(s)]')
+                    continue
         cov = fp_cover(key, all_names) if entry.endswith('(changed)') else None
         value_level = set(lean.get('translator', {}).get('theorems', []))
         if cov and all(n in ok_names for n in cov):
